@@ -31,7 +31,8 @@ Definition upstream_head (m : method) (routed raw : bytes) (h : hmap) (peer : by
 
 (* ---- upstream side as a state machine: body data before / after the connection is up ------ *)
 Record upst := { u_written : bool; u_pending : bytes; u_sent : bytes }.
-Inductive upop := UData (b : bytes) | UConnected.
+Inductive upop := UData (b : bytes) | UConnected
+                | UAnswer.      (* the upstream sends something (its response head, part of its body) - whenever it likes *)
 
 Definition up_step (head : bytes) (s : upst) (o : upop) : upst :=
   match o with
@@ -41,6 +42,7 @@ Definition up_step (head : bytes) (s : upst) (o : upop) : upst :=
   | UConnected =>
       if u_written s then s
       else {| u_written := true; u_pending := []; u_sent := u_sent s ++ head ++ u_pending s |}
+  | UAnswer => s                 (* what comes back from the upstream never touches what is sent to it *)
   end.
 Definition up_run (head : bytes) (ops : list upop) : upst :=
   fold_left (up_step head) ops {| u_written := false; u_pending := []; u_sent := [] |}.
